@@ -21,7 +21,9 @@ MANIFEST = {
              "errors), the session requester makes at most three attempts and repeats only after connection-level "
              "failures; host_zone_stripped: for every zoned URL of the grammar and all header maps exactly one Host header "
              "without zone is sent; fixed_host_text: the text-level transcription of _fixed_host_header equals the grammar-level "
-             "function assuming only urlparse's hostname/port (assumption compared with the real urlparse on every case). The ladders, the retry count and the issubclass matrix are regenerated from aiohttp.py / "
+             "function assuming only urlparse's hostname/port; logging_transparent: result and attempts do not depend on the traffic "
+             "logger being at DEBUG, whatever the response bodies (log blocks extracted and pinned by the translator); it also covers "
+             "urlparse's hostname/port (assumption compared with the real urlparse on every case). The ladders, the retry count and the issubclass matrix are regenerated from aiohttp.py / "
              "exceptions.py on every run (tools/gen_c17.py) and the finite facts are re-decided; the interpreter of the "
              "tables is validated against the real requesters over a scripted fake ClientSession."),
     "note": ("Trusted: Lean kernel + standard axioms; the translator (ast shapes it accepts; refuses others); the fake "
